@@ -368,6 +368,11 @@ def plan(prop, tier):
                          {"id": 4, "kind": "take", "n": n, "ups": [3]}]
                 fams.append((f"thr_take{n}_merge", thr_cfg({"nodes": nodes, "root": 4}, "thr_take_merge",
                                                           progs([1, 2], [2, 2], ["T", "T"])), None))
+                # ... and behind combine! (the README's pipeline: take over combine! of two intervals)
+                nodes = [scen.puppet(1, 1, "push"), scen.puppet(2, 2, "push"), {"id": 3, "kind": "combine", "ups": [1, 2]},
+                         {"id": 4, "kind": "take", "n": n, "ups": [3]}]
+                fams.append((f"thr_take{n}_combine", thr_cfg({"nodes": nodes, "root": 4}, "thr_take_combine",
+                                                            progs([1, 2], [2, 2], ["T", "T"])), None))
         return fams
     if prop == "C20":
         # every message-sending site of every operator: all sequential families (small ones in the quick
